@@ -172,8 +172,7 @@ example : AF_WF { AF.fresh with pcr := [1, 2, 3, 4, 5, 6], splice_countdown := 7
   decide
 
 
-/- Clauses of C14 with no theorem here (open): `eq_decode` for MPEGTS, MPEGPacketPMT,
-   PES and STANAG4609 (the C06 round-trip theorems give the decoded object explicitly; the comparison with the packed
-   object was not carried out).  `DescriptorTag` and `PMTStream` equality is structural in the model (`==` on the lists). -/
+/- `eq_decode` for MPEGTS, MPEGPacketPMT, PES and STANAG4609 (open at the rev2 review) is in
+   `Props/C14/MpegDecode.lean`.  `DescriptorTag` and `PMTStream` equality is structural in the model (`==` on the lists). -/
 
 end Acra.Props.C14
